@@ -365,8 +365,37 @@ EXPECTED_KIND = {
 }
 
 
+def long_value_text(rng):
+    """the text of a literal whose printed form is long (60-300 bytes) and contains multi-byte characters at random
+    offsets: error reporting must cope with any offending value"""
+    n = rng.choice([70, 78, 79, 80, 81, 82, 90, 120, 200, 300])
+    chars = []
+    size = 0
+    while size < n:
+        c = rng.choice(["a", "b", " ", "x", "\u00e9", "\u2192", "\u3053", "\U0001F600"]) if rng.random() < 0.5 else rng.choice("abcdefg ")
+        chars.append(c)
+        size += len(c.encode("utf-8"))
+    text = "".join(chars)
+    k = rng.random()
+    if k < 0.5:
+        return '"%s"' % text
+    if k < 0.75:
+        return "'(%s)" % " ".join('"%s"' % text[i:i + 7] for i in range(0, len(text), 7))
+    return "(vector %s)" % " ".join('"%s"' % text[i:i + 5] for i in range(0, len(text), 5))
+
+
 def fault_expr(rng, kind):
     """an expression whose evaluation performs exactly one faulting operation"""
+    if kind in ("non-procedure", "type") and rng.random() < 0.2:
+        v = long_value_text(rng)
+        if kind == "non-procedure":
+            return rng.choice(["(%s 1)", "((car (list %s)))", "(%s)"]) % v
+        ops = ["(+ 1 %s)", "(vector-ref %s 'x)", "(- %s)", "(< 1 %s)", "(abs %s)"]
+        if v.startswith('"'):
+            ops += ["(car %s)", "(cdr %s)", "(vector-ref %s 0)"]
+        if v.startswith("'("):
+            ops += ["(apply + 1 %s)"]
+        return rng.choice(ops) % v
     if kind == "non-procedure":
         return rng.choice(["(5 1)", "((+ 1 2) 3)", "(\"s\")", "('a 1 2)", "((car (list 1 2)))"])
     if kind == "arity":
@@ -846,7 +875,7 @@ def loop_program(shape, contexts):
 # ------------------------------------------------------------------------------------------
 MACRO_LITERALS = ["else", "=>", "to", "y"]
 MACRO_VARS = ["a", "b", "c", "d", "e", "f"]
-MACRO_DATA = ["1", "2", "#t", "\"s\"", "#\\x"]
+MACRO_DATA = ["1", "2", "#t", "\"s\"", "#\\x", "1.0", "1/2", "0.5", "-3", "2.5"]
 
 
 class MacroGen:
@@ -1004,7 +1033,12 @@ class MacroGen:
         if t == "datum":
             if mutate and r.random() < 0.3:
                 near = {'"s"': ["s", "#\\s", '"t"'], "#\\x": ["x", '"x"', "#\\y"], "1": ['"1"', "2", "#\\1"], "2": ['"2"', "1"],
-                        "#t": ["#f", '"#t"', "t"]}
+                        "#t": ["#f", '"#t"', "t"],
+                        # numbers of the same value and another kind, other spellings of the same number
+                        "1.0": ["1", "1.00", "1e0", "2/2", "1.5"], "1/2": ["0.5", "2/4", "1/3", ".5"], "0.5": ["1/2", ".5", "0.50", "5e-1"],
+                        "-3": ["-3.0", "-6/2", "3", "-3."], "2.5": ["5/2", "2.50", "25e-1", "2"]}
+                if p[1] in ("1", "2"):
+                    near[p[1]] = near[p[1]] + [p[1] + ".0", p[1] + ".", "%d/2" % (2 * int(p[1])), p[1] + "e0"]
                 return r.choice(near.get(p[1], [p[1]]))
             return p[1]
         items = []
@@ -1331,9 +1365,19 @@ NODE_KINDS = ["healthy", "missing", "faulting", "faulting-early", "wrong-name", 
               "second-in-file", "after-other-forms", "defined-twice"]
 
 
+EDGE_SALT = 0      # set per graph by the caller: which import-set shape each edge gets
+
+
 def library_text(name, imports, kind):
     """source of library (name) importing the given libraries"""
-    imp = " ".join("(%s)" % i for i in imports)
+    # a dependency is a dependency whatever import set names it: the library alone, or only / except / rename / prefix
+    # around it, also with an EMPTY list of identifiers
+    shapes = ["(%s)", "(only (%s))", "(%s)", "(except (%s))", "(rename (%s))", "(prefix (%s) p-)", "(only (%s) %s-v)", "(%s)"]
+
+    def edge(i):
+        sh = shapes[(sum(map(ord, name)) * 7 + sum(map(ord, i)) + 3 * len(imports) + EDGE_SALT) % len(shapes)]
+        return sh % ((i, i) if sh.count("%s") == 2 else i)
+    imp = " ".join(edge(i) for i in imports)
     imports_decl = "(import (scheme base)%s)" % ((" " + imp) if imp else "")
     if kind == "healthy":
         return "(define-library (%s) (export %s-v) %s (begin (define %s-v '%s)))" % (name, name, imports_decl, name, name)
@@ -1447,6 +1491,13 @@ def encapsulation_case(rng):
             decls = ["(export %s)" % " ".join(ex), imports, "(begin %s)" % " ".join(body)]
         text = "(define-library (%s) %s)" % (name, " ".join(decls))
         libs.append((name, text, deps, ext_peek, aliases))
+    bare = rng.random() < 0.4
+    if bare:
+        # a library WITHOUT import declaration (the core forms need none): names it neither defines nor imports are unbound
+        # in it, whatever the importing program defines
+        free = rng.choice([internal, helper, "free-name", "car"])
+        libs.append(("bare", "(define-library (bare) (export probe poke! (rename own bare-own)) (begin (define own 'bare) "
+                     "(define (probe) %s) (define (poke!) (set! %s 'poked) own)))" % (free, free), [], "probe", []))
     forms = []
     order = list(names)
     rng.shuffle(order)
@@ -1455,6 +1506,8 @@ def encapsulation_case(rng):
         if rng.random() < 0.8:
             forms.append(rng.choice(["(import (%s))" % name, "(import (%s) (%s))" % (name, name)]))
             imported.append(name)
+    if bare:
+        forms.insert(rng.randint(0, len(forms)), "(import (bare))")
     # the import phase ends with the first other form
     pool = []
     for name, text, deps, ext_peek, aliases in libs:
@@ -1467,8 +1520,12 @@ def encapsulation_case(rng):
     for name in imported:
         pool.append("(define next-%s (lambda () 'redefined))" % name)
         pool.append("(define car (lambda (z) 'no-car))")
+    if bare:
+        pool += ["(define %s 'program)" % free, "(probe)", "(poke!)", free, "bare-own", "(probe)"]
     for _ in range(rng.randint(6, 14)):
         forms.append(rng.choice(pool))
+    if bare:
+        forms += ["(define %s 'program-again)" % free, "(probe)", "(poke!)", free]
     for name, text, deps, ext_peek, aliases in libs:
         if name in imported:
             forms.append("(%s)" % ext_peek)
@@ -1496,6 +1553,11 @@ REPL_SPECIAL = [
     "(define-syntax swap! (syntax-rules () ((swap! a b) (let ((tmp a)) (set! a b) (set! b tmp)))))",
     "(begin (display 1) (newline) (display 2) 3)", '(display "two\nlines(")', "(list 1 ; comment )\n 2)",
     "(quote |bar\n(id|)", '(display "a") (display "b")',
+    # characters of more than one byte before the parentheses of later lines of the same submission
+    '(define (greet name) (display "\u3053\u3093\u306b\u3061\u306f\u3001") (display name) (newline) (list 1 (+ 2 3)))', '(greet "w")',
+    '(list "\u00e9\u2192\U0001F600" (list 1 2) (car (list 3)) (list (list)))', '(list #\\\u00e9 (list #\\\u2192) (+ 1 2) (vector))',
+    '(begin (display "\U0001F600\U0001F600\U0001F600\U0001F600") (newline) (list (list 1) (list 2)))',
+    '(list (quote |\u00fc\u00fc\u00fc\u00fc|) (list (list 1)) (car (list 2)))',
 ]
 
 
@@ -1812,8 +1874,12 @@ def located_fault_program(rng, kind, context, template=None, fault=None):
 # ------------------------------------------------------------------------------------------
 # C11: the list library against a model on python lists
 # ------------------------------------------------------------------------------------------
+class Str(str):
+    """a Scheme string in the python model of the data (plain str is a symbol)"""
+
+
 class PyList:
-    """python model of the data: ints, symbols (str), pairs as ('pair', a, b), nil as ()"""
+    """python model of the data: ints, symbols (str), strings (Str), pairs as ('pair', a, b), nil as ()"""
     @staticmethod
     def from_items(items, tail=()):
         v = tail
@@ -1829,6 +1895,8 @@ class PyList:
             return "#t" if v else "#f"
         if isinstance(v, int):
             return str(v)
+        if isinstance(v, Str):
+            return '"%s"' % v
         if isinstance(v, str):
             return v
         items = []
@@ -1847,13 +1915,15 @@ class PyList:
             return "#t" if v else "#f"
         if isinstance(v, int):
             return "i%d" % v
+        if isinstance(v, Str):
+            return "(str %s)" % v.encode().hex()
         if isinstance(v, str):
             return "(sym %s)" % v.encode().hex()
         return "(pair %s %s)" % (PyList.canon(v[1]), PyList.canon(v[2]))
 
 
 def rand_atom(rng):
-    return rng.choice([0, 1, 2, 3, 7, -1, 42, "a", "b", "c", True, False])
+    return rng.choice([0, 1, 2, 3, 7, -1, 42, "a", "b", "c", True, False, Str("a"), Str("two"), Str("")])
 
 
 def rand_list(rng, maxlen=12, depth=2, improper=0.15):
@@ -1904,7 +1974,7 @@ def perturb(rng, v):
     """a copy of v that differs from it in exactly one place (an atom changed, an element dropped or added, the tail
     changed), at a random position of a random nesting level"""
     if not is_pair(v):
-        return rng.choice([x for x in [0, 1, "a", "z", (), True, ("pair", 1, ())] if not py_equal(x, v)])
+        return rng.choice([x for x in [0, 1, "a", "z", (), True, ("pair", 1, ()), Str("a"), Str("z")] if not py_equal(x, v)])
     items, tail = py_items(v)
     k = rng.randrange(len(items) + 1)
     if k < len(items) and rng.random() < 0.6:
@@ -2128,3 +2198,132 @@ def list_call_error(rng, name):
         items, _ = py_items(l)
         return "(%s %s %d)" % (name, q(l), len(items) + 1 + rng.randint(0, 2)), "error", name
     return "(car '())", "error", "car"
+
+
+# names of standard procedures used as operators; a program may bind any of them to something else
+SHADOWABLE = ["not", "null?", "car", "cdr", "list", "cons", "+", "-", "*", "<", "=", "eqv?", "pair?", "vector-ref", "apply"]
+SHADOW_MEANINGS = ["pair?", "null?", "(lambda (v) v)", "(lambda (v) (eqv? v 0))", "(lambda (v) #f)", "(lambda (v) (cons 'own v))",
+                   "car", "(lambda (v) 'sym)", "list"]
+
+
+def shadowed_builtin_program(rng):
+    """identifiers resolve lexically whatever they are called: a parameter, an internal or top-level definition or a
+    let-bound variable named like a standard procedure is what an operator of that name refers to - in tests of
+    conditionals (one- and two-armed), in operands, in tail position"""
+    name = rng.choice(SHADOWABLE)
+    arg = rng.choice(["'(1 2)", "'()", "0", "5", "#f", "#t", "'sym"])
+    use = rng.choice([
+        "(if (%s x) 'yes 'no)", "(if (%s x) 'yes)", "(if (%s x) (list 'then x) (list 'else x))", "(list (%s x))",
+        "(%s x)", "(if (if (%s x) #f #t) 'inner-yes 'inner-no)", "(cond ((%s x) 'first) (else 'second))",
+        "(and (%s x) 'both)", "(or (%s x) 'neither)", "(when (%s x) 'w)", "(unless (%s x) 'u)",
+        "(let ((r (%s x))) (if r 'bound-yes 'bound-no))"]) % name
+    meaning = rng.choice(SHADOW_MEANINGS)
+    shape = rng.choice(["parameter", "internal", "toplevel", "let", "lambda-operand", "set"])
+    if shape == "parameter":
+        forms = ["(define (p %s x) %s)" % (name, use), "(p %s %s)" % (meaning, arg), "(p %s %s)" % (name, arg)]
+    elif shape == "internal":
+        forms = ["(define (p x) (define %s %s) %s)" % (name, meaning, use), "(p %s)" % arg]
+    elif shape == "toplevel":
+        forms = ["(define saved %s)" % name, "(define %s %s)" % (name, meaning), "(define (p x) %s)" % use, "(p %s)" % arg,
+                 "(define x %s)" % arg, use, "(define %s saved)" % name, "(p %s)" % arg]
+    elif shape == "let":
+        forms = ["(define (p x) (let ((%s %s)) %s))" % (name, meaning, use), "(p %s)" % arg]
+    elif shape == "lambda-operand":
+        forms = ["((lambda (%s x) %s) %s %s)" % (name, use, meaning, arg)]
+    else:
+        forms = ["(define (p x) %s)" % use, "(p %s)" % arg, "(define saved %s)" % name, "(set! %s %s)" % (name, meaning),
+                 "(p %s)" % arg, "(set! %s saved)" % name, "(p %s)" % arg]
+    return forms
+
+
+def sequential_binding_program(rng):
+    """binding forms that bind several names in sequence (let*, nested let, internal definitions, named parameters): a
+    closure made by an EARLIER initialiser that mentions a name bound LATER in the same form (or bound twice) shares
+    the outer / earlier binding, not the later one; then the later binding is assigned or its vector mutated"""
+    nm = rng.choice(["total", "n", "cell", "acc"])
+    outer = rng.choice(["global", "parameter", "earlier", "none"])
+    form = rng.choice(["let*", "let*", "nested-let", "let*-3"])
+    vec = rng.random() < 0.4
+    v0, v1 = rng.randint(1, 9), rng.randint(10, 99)
+    init0 = "(vector %d)" % v0 if vec else str(v0)
+    init1 = "(vector %d)" % v1 if vec else str(v1)
+    read = "(vector-ref %s 0)" % nm if vec else nm
+    mutate = "(vector-set! %s 0 (+ %s 1))" % (nm, read) if vec else "(set! %s (+ %s 1))" % (nm, read)
+    getter = "(get (lambda () %s))" % read
+    setter = "(bump (lambda () %s))" % mutate
+    first = [getter] if rng.random() < 0.6 else [getter, setter]
+    later = "(%s %s)" % (nm, init1)
+    pre = ["(%s %s)" % (nm, init0)] if outer == "earlier" else []
+    extra = ["(other %d)" % rng.randint(0, 5)] if form == "let*-3" else []
+    binds = pre + first + extra + [later]
+    body = "%s (list %s (get)%s)" % (mutate, read, " (begin (bump) (get)) %s" % read if len(first) == 2 else "")
+    if form == "nested-let":
+        expr = body
+        for b in reversed(binds):
+            expr = "(let (%s) %s)" % (b, expr)
+    else:
+        expr = "(let* (%s) %s)" % (" ".join(binds), body)
+    forms = []
+    if outer == "global":
+        forms.append("(define %s %s)" % (nm, "(vector 100)" if vec else "100"))
+    if outer == "parameter":
+        forms.append("(define (make %s) %s)" % (nm, expr))
+        forms.append("(make %s)" % ("(vector 200)" if vec else "200"))
+        forms.append("(make %s)" % ("(vector 300)" if vec else "300"))
+    else:
+        forms.append("(define (make) %s)" % expr)
+        forms += ["(make)", "(make)"]
+    if outer == "global":
+        forms.append(read)
+    forms.append(expr)
+    return forms
+
+
+def big_datum_texts(rng, quick):
+    """texts of single data that are large in one dimension: nesting depth (lists, vectors, quotations, mixed), number of
+    dotted pairs, number of elements; each with the value of a probe that only the correct datum gives"""
+    out = []
+    depths = [64, 200, 300, 520, 700] if quick else [64, 128, 200, 255, 256, 257, 300, 511, 512, 513, 520, 700, 850]
+    for n in depths:
+        opener = rng.choice(["(", "(", "#(", "(a ", "'("])
+        out.append(("nested", n, opener * n + "core" + ")" * n))
+        out.append(("nested-mixed", n, "".join(rng.choice(["(", "#(", "(x "]) for _ in range(n)) + "core" + ")" * n))
+    for n in ([100, 300, 600] if quick else [100, 253, 254, 255, 256, 300, 600, 1500]):
+        out.append(("dotted-pairs", n, "(" + " ".join("(%d . %d)" % (k, k * k) for k in range(n)) + ")"))
+        out.append(("dotted-tail-chain", n, "(" + " ".join("(k%d" % k for k in range(n)) + " . end" + ")" * n + ")"))
+        out.append(("wide", n * 4, "(" + " ".join(rng.choice(["a", "1", "#t", "(b)", "#(c)", "\"s\""]) for _ in range(n * 4)) + ")"))
+    return out
+
+
+def user_macro_fault_program(rng):
+    """a syntax-rules macro of the program whose template has free identifiers (also under an ellipsis) that are unbound, or
+    bound to a non-procedure, at run time; the use that reaches one - for the k-th of n items - is the failing form, and the
+    error belongs to that use, not to the text of the definition"""
+    g = Gen(rng, ticks=False, derived=True)
+    forms, _ = g.program(rng.randint(0, 3), 2)
+    n = rng.randint(1, 5)
+    p = rng.randrange(n)
+    free = rng.choice(["complain", "missing-proc", "oops"])
+    shape = rng.choice(["ellipsis", "ellipsis", "ellipsis-pairs", "plain", "ellipsis-operator"])
+    if rng.random() < 0.3:
+        forms.append("(define %s 5)" % free)          # bound, but not to a procedure
+    if shape == "ellipsis":
+        forms.append("(define-syntax checked (syntax-rules () ((checked v ...) (list (if v v (%s 'v)) ...))))" % free)
+        use = "(checked %s)" % " ".join("#f" if k == p else str(k + 1) for k in range(n))
+    elif shape == "ellipsis-pairs":
+        forms.append("(define-syntax table (syntax-rules () ((table (k v) ...) (list (cons 'k (if v v (%s 'k))) ...))))" % free)
+        use = "(table %s)" % " ".join("(key%d %s)" % (k, "#f" if k == p else str(k)) for k in range(n))
+    elif shape == "plain":
+        forms.append("(define-syntax pick (syntax-rules () ((pick a b) (if a b (%s b)))))" % free)
+        use = "(pick #f %d)" % n
+    elif shape == "ellipsis-operator":
+        forms.append("(define-syntax each (syntax-rules () ((each v ...) (begin (if v (%s v) v) ...))))" % free)
+        use = "(each %s)" % " ".join("#t" if k == p else "#f" for k in range(n))
+    else:
+        forms.append("(define-syntax outer (syntax-rules () ((outer (v ...) ...) (list (list (if v v (%s)) ...) ...))))" % free)
+        use = "(outer %s)" % " ".join("(%s)" % " ".join("#f" if (k == p and j == 1) else "1" for j in range(3)) for k in range(n))
+    wrap = rng.choice(["%s", "%s", "(list 0 %s)", "(let ((z 1)) %s)", "((lambda () %s))", "(display %s)"])
+    idx = len(forms)
+    forms.append(wrap % use)
+    forms.append("(display 'not-reached)")
+    return forms, idx, None
